@@ -163,12 +163,13 @@ Definition check_bcase (c : bcase) : Z :=
   end.
 
 (* ---- C14 direct run *)
-Inductive astep := AOk (active : list nat) (peak : nat) (mused : list nat) | AErr.
+Inductive astep := AOk (active : list nat) (peak : nat) (mused mscr : list nat) | AErr.
 Record acase := mkA { a_fd : bool; a_prog : block; a_steps : list astep }.
 
 Definition astep_eqb (m : stepres) (a : astep) : bool :=
   match m, a with
-  | StepOk act pk mu, AOk act' pk' mu' => list_eqb Nat.eq_dec act act' && Nat.eqb pk pk' && list_eqb Nat.eq_dec mu mu'
+  | StepOk act pk mu sc, AOk act' pk' mu' sc' =>
+      list_eqb Nat.eq_dec act act' && Nat.eqb pk pk' && list_eqb Nat.eq_dec mu mu' && list_eqb Nat.eq_dec sc sc'
   | StepErr EOutOfRegs, AErr => true
   | _, _ => false
   end.
